@@ -79,6 +79,32 @@ def domain_target(name, spec):
         'output': resources([files_resource(p, e) for p, e in spec['out']])})})
 
 
+def yaml_project(prog):
+    """The project of TARGETS as an already-parsed yaml::Project value (paths relative to the project directory /p)."""
+    c = prog.types_by_name.get('Target', [])
+    tty = '::'.join(('config', 'yaml', 'schema') + ('Target',)) if len(c) > 1 else 'Target'
+    rel = lambda q: q[len('/p/'):]
+
+    def files(variant_ty, ps, exts):
+        return REnum(variant_ty, 'Files', {'paths': RVec.of([rel(q) for q in ps]), 'extensions': NONE if exts is None else some(RVec.of(list(exts)))})
+    targets = {}
+    for n, spec in TARGETS.items():
+        tv = REnum(tty, 'Build', {'dependencies': RStruct('Dependencies', {0: RVec.of(list(spec['deps']))}), 'build': 'echo ' + n,
+                                   'input': RStruct('InputResources', {0: RVec.of([files('InputResource', ps, e) for ps, e in spec['in']])}),
+                                   'output': RStruct('OutputResources', {0: RVec.of([files('OutputResource', ps, e) for ps, e in spec['out']])})})
+        targets[key_of(n)] = (True, n, tv)
+    return RStruct('Project', {'targets': RMap(targets), 'name': NONE, 'imports': RMap()})
+
+
+def explore_main(prog, world, mode):
+    """The whole of main() with `--clean` (mode 'all') / `--clean a` (mode 'some') over the symbolic tree: same stubs as MAINRUN
+    (process boundary only). Independent of how main() is split into functions or names its locals."""
+    from .mainrun import MainRun
+    mr = MainRun(prog, world, {'/p': yaml_project(prog)}, '/p', None if mode == 'all' else ['a'], True, False, engine_result=z3.BoolVal(False), max_paths=60000)
+    paths = mr.explore()
+    return mr.I, paths
+
+
 def explore(arg):
     mode, repo = arg
     t0 = time.time()
@@ -86,10 +112,16 @@ def explore(arg):
     try:
         prog = Program(repo)
         init_types(prog)
-        node = find_clean_if(prog)
         scope = ['a', 'b', 'd'] if mode == 'all' else ['a', 'd']
         world = VfsWorld(PATHS, state_files=[], always_dirs=('/', '/p'), links=LINKS)
-        I = Interp(prog, world, stubs={}, max_paths=60000)
+        try:
+            if os.environ.get('ZX_C12_WHOLE_MAIN'):
+                raise Unsupported('whole-main entry requested')
+            node = find_clean_if(prog)
+        except Unsupported as ex_:
+            node = None
+            out['entry'] = 'main() from its first statement (the --clean branch could not be cut out: %s)' % ex_
+        I = Interp(prog, world, stubs={}, max_paths=60000) if node is not None else None
 
         def init():
             world.reset()
@@ -109,10 +141,20 @@ def explore(arg):
                 return 'ok'
             except ReturnEx as e:
                 return e.value
-        I.solver.reset()
-        for c in world.constraints([1]):
-            I.solver.add(c)
-        paths = I.explore(thunk, init)
+        if node is not None:
+            I.solver.reset()
+            for c in world.constraints([1]):
+                I.solver.add(c)
+            try:
+                paths = I.explore(thunk, init)
+            except Unsupported as ex_:
+                # e.g. the branch uses locals under other names than the ones bound above: run the whole of main() instead
+                node = None
+                out['entry'] = 'main() from its first statement (the cut-out branch could not be run: %s)' % ex_
+                world = VfsWorld(PATHS, state_files=[], always_dirs=('/', '/p'), links=LINKS)
+        if node is None:
+            I, paths = explore_main(prog, world, mode)
+            # paths of main() that end before anything is cleaned (none expected: the configuration is valid) are reported below as is
         out['paths'] = len(paths)
         out['functions'] = sorted(I.stats['fns'])
         # reference: which primitive may touch which path
